@@ -320,7 +320,9 @@ def run_history(case, tmpdir):
                 o["status"] = "ValueError"
                 o["error"] = str(e)[:150]
             except BaseException as e:  # noqa: BLE001
-                o["status"] = "other-raise"
+                # compose() refusing a selection with a usage error (e.g. a setup node would come to depend on an input of
+                # the composed DAG: the setup build rule) is a refusal like ValueError, not a failure
+                o["status"] = "refused" if (k == "compose" and type(e).__name__ == "TawaziUsageError") else "other-raise"
                 o["error"] = "%s: %s" % (type(e).__name__, str(e)[:150])
             obs.append(o)
             return
@@ -418,6 +420,8 @@ def run_history(case, tmpdir):
         finally:
             tawazi.cfg.RUN_DEBUG_NODES = False
         o["status"] = st[0]
+        if k == "setup" and st[0] == "raise" and isinstance(st[1], ValueError) and not ex:
+            o["status"] = "ValueError"  # setup(...) validates its selection when it is called: the refusal of a selection
         o["value"] = st[1] if st[0] == "ok" else None
         o["error"] = None if st[0] == "ok" else "%s: %s" % (type(st[1]).__name__, str(st[1])[:150])
         o["executed"] = ex
